@@ -202,13 +202,15 @@ Proof.
 Qed.
 
 (* ---------- "however the reply's headers are ordered, cased, spaced" ---------- *)
-(* the reply parser inverts the rendering of a reply from a status code and a list of header lines (names in any letter
-   case, blanks and tabs around each value, names pairwise distinct up to case): the status is the one rendered, resp_get
-   returns the stripped value for every name asked in any letter case, and nothing for names that are not there *)
+(* the reply parser inverts the rendering of a reply from a status code and a list of headers (names in any letter case,
+   blanks and tabs around each value, any number of obsolete-folding continuation lines, names pairwise distinct up to
+   case): the status is the one rendered; resp_get returns, for every name asked in any letter case, the stripped value
+   text -- the first line's value followed by a blank and the left-stripped text of every continuation line -- and
+   nothing for names that are not there *)
 Theorem C10_reply_parser_inverts_rendering : forall r, wf_reply r ->
   r_status (parse_response (render_reply r)) = Some (rp_code r) /\
   (forall h q, In h (rp_lines r) -> lower_s q = key_of h ->
-     resp_get (parse_response (render_reply r)) q = Some (strip (hl_value h))) /\
+     resp_get (parse_response (render_reply r)) q = Some (strip (value_text h))) /\
   (forall q, ~ In (lower_s q) (map key_of (rp_lines r)) -> resp_get (parse_response (render_reply r)) q = None).
 Proof. exact parse_rendered_reply. Qed.
 Print Assumptions C10_reply_parser_inverts_rendering.
@@ -221,7 +223,7 @@ Theorem C10_decision_independent_of_header_order : forall accept r r', wf_reply 
 Proof. exact decision_rendering_independent. Qed.
 Print Assumptions C10_decision_independent_of_header_order.
 
-(* ... the letter case of the names and the blanks around the values *)
+(* ... the letter case of the names, the blanks around the values and the places where a value is folded *)
 Theorem C10_decision_independent_of_spelling : forall accept r r', wf_reply r -> wf_reply r' ->
   rp_code r = rp_code r' ->
   (forall h, In h (rp_lines r) -> exists h', In h' (rp_lines r') /\ same_header h h') ->
@@ -232,16 +234,16 @@ Print Assumptions C10_decision_independent_of_spelling.
 
 Example C10_rendering_nonvacuous :
   let r := {| rp_version := str "HTTP/1.1"%string; rp_code := 101; rp_reason := str "Switching Protocols"%string;
-              rp_lines := [ {| hl_name := str "UPGRADE"%string; hl_lead := [SP; HT]; hl_value := str "WebSocket"%string; hl_trail := [SP] |};
-                            {| hl_name := str "sec-websocket-ACCEPT"%string; hl_lead := []; hl_value := str "s3pPLMBiTxaQ9kYGzzhZRbK+xOo="%string; hl_trail := [HT; HT] |} ] |} in
+              rp_lines := [ {| hl_name := str "UPGRADE"%string; hl_lead := [SP; HT]; hl_value := str "WebSocket"%string; hl_trail := [SP]; hl_cont := [] |};
+                            {| hl_name := str "sec-websocket-ACCEPT"%string; hl_lead := []; hl_value := str "s3pPLMBiTxaQ9kYGzzhZRbK+xOo="%string; hl_trail := [HT; HT]; hl_cont := [] |} ] |} in
   on_response (str "s3pPLMBiTxaQ9kYGzzhZRbK+xOo="%string) (parse_response (render_reply r)) = HReady None None.
 Proof. vm_compute. reflexivity. Qed.
 
 Ltac forall_list tac := repeat (apply Forall_cons; [tac|]); apply Forall_nil.
 Example C10_rendering_hypotheses_satisfiable :
   wf_reply {| rp_version := str "HTTP/1.1"%string; rp_code := 101; rp_reason := str "Switching Protocols"%string;
-              rp_lines := [ {| hl_name := str "UPGRADE"%string; hl_lead := [SP; HT]; hl_value := str "WebSocket"%string; hl_trail := [SP] |};
-                            {| hl_name := str "sec-websocket-ACCEPT"%string; hl_lead := []; hl_value := str "s3pPLMBiTxaQ9kYGzzhZRbK+xOo="%string; hl_trail := [HT; HT] |} ] |}.
+              rp_lines := [ {| hl_name := str "UPGRADE"%string; hl_lead := [SP; HT]; hl_value := str "WebSocket"%string; hl_trail := [SP]; hl_cont := [] |};
+                            {| hl_name := str "sec-websocket-ACCEPT"%string; hl_lead := []; hl_value := str "s3pPLMBiTxaQ9kYGzzhZRbK+xOo="%string; hl_trail := [HT; HT]; hl_cont := [] |} ] |}.
 Proof.
   constructor; cbn [rp_version rp_code rp_reason rp_lines].
   - split; [discriminate|]. vm_compute. forall_list reflexivity.
@@ -251,6 +253,16 @@ Proof.
       [split; [discriminate|vm_compute; forall_list ltac:(repeat split; try reflexivity; discriminate)]
       | forall_list ltac:(first [left; reflexivity | right; reflexivity])
       | vm_compute; forall_list ltac:(repeat split; try reflexivity; discriminate)
-      | forall_list ltac:(first [left; reflexivity | right; reflexivity])]).
+      | forall_list ltac:(first [left; reflexivity | right; reflexivity])
+      | constructor]).
   - vm_compute. repeat constructor; cbn; intros K; repeat (destruct K as [K|K]; [discriminate K|]); exact K.
 Qed.
+
+(* an unfolded header is read as the value written (blanks stripped); a value folded at a blank reads like the unfolded one *)
+Theorem C10_unfolded_value : forall h, wf_line h -> hl_cont h = [] -> strip (value_text h) = strip (hl_value h).
+Proof. exact value_text_unfolded. Qed.
+Example C10_folding_example :
+  same_header {| hl_name := str "Upgrade"%string; hl_lead := [SP]; hl_value := str "web socket"%string; hl_trail := []; hl_cont := [] |}
+              {| hl_name := str "UPGRADE"%string; hl_lead := []; hl_value := str "web"%string; hl_trail := [];
+                 hl_cont := [([SP; HT], str "socket"%string)] |}.
+Proof. exact folding_example. Qed.
